@@ -8,12 +8,17 @@ import (
 	"fmt"
 	"io"
 	"os"
+	"runtime"
 	"strings"
+	"sync"
+	"time"
 
 	"mellium.im/xmlstream"
 	"mellium.im/xmpp"
+	"mellium.im/xmpp/component"
 	"mellium.im/xmpp/jid"
 	"mellium.im/xmpp/stanza"
+	"mellium.im/xmpp/websocket"
 
 	"verifharness/vt"
 )
@@ -26,6 +31,10 @@ type vecIn struct {
 	Nested bool   `json:"nested"`
 	S2S    bool   `json:"s2s"`
 	Form   string `json:"form"`
+	// the session the call is made on (Transmit.tla, Sessions)
+	Kind string `json:"kind"` // c2s | s2s | ws | comp
+	Role string `json:"role"` // init | recv
+	Via  string `json:"via"`  // custom | pkg | gen
 }
 
 type vecExp struct {
@@ -38,6 +47,8 @@ type vecExp struct {
 	Nested  string   `json:"nested"`
 	Payload string   `json:"payload"`
 	Next    string   `json:"next"`
+	NS      string   `json:"ns"`      // the stream's content namespace, by the specification: client | server | accept
+	Context string   `json:"context"` // header (a stream header declares the content namespace) | standalone (every element is a document of its own)
 }
 
 type vector struct {
@@ -94,28 +105,201 @@ const (
 	nsOther = "urn:vt:foreign"
 )
 
-// recvMode: build the session under test with ReceiveSession (the local address of a received
-// session is learned from the peer's header only) instead of NewSession
-var recvMode bool
+const (
+	streamNS  = "http://etherx.jabber.org/streams"
+	framingNS = "urn:ietf:params:xml:ns:xmpp-framing"
+	readyNS   = "urn:x:verif:ready"
+)
+
+// nsOf maps the specification's symbol of a content namespace to the namespace name.
+func nsOf(sym string) string {
+	switch sym {
+	case "server":
+		return stanza.NSServer
+	case "accept":
+		return component.NSAccept
+	}
+	return stanza.NSClient
+}
+
+// readyFeature stands in for resource binding on received sessions negotiated by the library's own
+// negotiator: required, without payload, ends the negotiation.
+func readyFeature() xmpp.StreamFeature {
+	return xmpp.StreamFeature{
+		Name:       xml.Name{Space: readyNS, Local: "ready"},
+		Prohibited: xmpp.Ready,
+		List: func(ctx context.Context, e xmlstream.TokenWriter, start xml.StartElement) (bool, error) {
+			if err := e.EncodeToken(start); err != nil {
+				return true, err
+			}
+			return true, e.EncodeToken(start.End())
+		},
+		Parse: func(ctx context.Context, d *xml.Decoder, start *xml.StartElement) (bool, interface{}, error) {
+			return true, nil, d.Skip()
+		},
+		Negotiate: func(ctx context.Context, s *xmpp.Session, data interface{}) (xmpp.SessionState, io.ReadWriter, error) {
+			if s.State()&xmpp.Received != 0 {
+				rd := s.TokenReader()
+				defer rd.Close()
+				d := xml.NewTokenDecoder(rd)
+				if _, err := d.Token(); err != nil {
+					return 0, nil, err
+				}
+				if err := d.Skip(); err != nil {
+					return 0, nil, err
+				}
+				_, err := fmt.Fprintf(s.Conn(), `<ok xmlns='%s'/>`, readyNS)
+				return xmpp.Ready, nil, err
+			}
+			_, err := fmt.Fprintf(s.Conn(), `<ready xmlns='%s'/>`, readyNS)
+			return xmpp.Ready, nil, err
+		},
+	}
+}
+
+func tcpHeader(ns, from, to, id string) string {
+	a := ""
+	for _, kv := range [][2]string{{"from", from}, {"to", to}, {"id", id}} {
+		if kv[1] != "" {
+			a += fmt.Sprintf(` %s="%s"`, kv[0], kv[1])
+		}
+	}
+	return fmt.Sprintf(`<stream:stream%s version="1.0" xmlns="%s" xmlns:stream="%s">`, a, ns, streamNS)
+}
+
+func wsOpen(from, to, id string) string {
+	a := ""
+	for _, kv := range [][2]string{{"from", from}, {"to", to}, {"id", id}} {
+		if kv[1] != "" {
+			a += fmt.Sprintf(` %s="%s"`, kv[0], kv[1])
+		}
+	}
+	return fmt.Sprintf(`<open xmlns="%s"%s version="1.0"/>`, framingNS, a)
+}
+
+// normSess fills in the session of vectors written before the session dimension existed (replay files).
+func normSess(in *vecIn, exp *vecExp) {
+	if in.Kind == "" {
+		in.Kind, in.Role, in.Via = "c2s", "init", "custom"
+		if in.S2S {
+			in.Kind = "s2s"
+		}
+	}
+	if exp.NS == "" {
+		exp.NS = map[string]string{"c2s": "client", "ws": "client", "s2s": "server", "comp": "accept"}[in.Kind]
+	}
+	if exp.Context == "" {
+		exp.Context = "header"
+		if in.Kind == "ws" {
+			exp.Context = "standalone"
+		}
+	}
+}
+
+// openVecSession makes the session in.Kind / in.Role / in.Via over conn: the peer's whole part of the
+// negotiation is fed first. It returns the session and the address the session has to call its own (what the
+// constructor was given on initiated sessions, what the peer's header names on received ones).
+// ns is the content namespace the SPECIFICATION assigns to the kind: peers and applications use it, the library
+// has to arrive at it by itself where its own negotiator is in charge.
+func openVecSession(in vecIn, ns string, conn *vt.Conn) (*xmpp.Session, string, error) {
+	ctx, cancel := context.WithTimeout(context.Background(), 20*time.Second)
+	defer cancel()
+	j := jid.MustParse
+	recv := in.Role == "recv"
+	var state xmpp.SessionState
+	if in.Kind == "s2s" {
+		state |= xmpp.S2S
+	}
+	var fs []xmpp.StreamFeature
+	if recv {
+		fs = append(fs, readyFeature())
+	}
+	cfg := func(*xmpp.Session, *xmpp.StreamConfig) xmpp.StreamConfig { return xmpp.StreamConfig{Features: fs} }
+	// what ends the negotiation on the peer's side, after its header
+	rest := "<stream:features/>"
+	if recv {
+		rest = `<ready xmlns="` + readyNS + `"/>`
+	}
+	if in.Via == "custom" {
+		// the application's own negotiator: it reads the header and declares the content namespace of the kind
+		local := "me@example.net"
+		if in.Kind == "comp" {
+			local = "comp.example.net"
+		}
+		conn.FeedString(tcpHeader(ns, "example.net", local, "123"))
+		if recv {
+			s, err := xmpp.ReceiveSession(ctx, conn, state, nopNeg(ns))
+			return s, local, err
+		}
+		s, err := xmpp.NewSession(ctx, j("example.net"), j(local), conn, state, nopNeg(ns))
+		return s, local, err
+	}
+	switch in.Kind + "/" + in.Role {
+	case "c2s/init":
+		conn.FeedString(tcpHeader(ns, "example.net", "me@example.net", "sid1") + rest)
+		if in.Via == "pkg" {
+			s, err := xmpp.NewClientSession(ctx, j("me@example.net"), conn, fs...)
+			return s, "me@example.net", err
+		}
+		s, err := xmpp.NewSession(ctx, j("example.net"), j("me@example.net"), conn, state, xmpp.NewNegotiator(cfg))
+		return s, "me@example.net", err
+	case "c2s/recv":
+		conn.FeedString(tcpHeader(ns, "", "example.net", "") + rest)
+		if in.Via == "pkg" {
+			s, err := xmpp.ReceiveClientSession(ctx, jid.JID{}, conn, fs...)
+			return s, "example.net", err
+		}
+		s, err := xmpp.ReceiveSession(ctx, conn, state, xmpp.NewNegotiator(cfg))
+		return s, "example.net", err
+	case "s2s/init":
+		conn.FeedString(tcpHeader(ns, "example.net", "example.com", "sid1") + rest)
+		if in.Via == "pkg" {
+			s, err := xmpp.NewServerSession(ctx, j("example.net"), j("example.com"), conn, fs...)
+			return s, "example.com", err
+		}
+		s, err := xmpp.NewSession(ctx, j("example.net"), j("example.com"), conn, state, xmpp.NewNegotiator(cfg))
+		return s, "example.com", err
+	case "s2s/recv":
+		conn.FeedString(tcpHeader(ns, "example.com", "example.net", "") + rest)
+		if in.Via == "pkg" {
+			s, err := xmpp.ReceiveServerSession(ctx, j("example.net"), j("example.com"), conn, fs...)
+			return s, "example.net", err
+		}
+		s, err := xmpp.ReceiveSession(ctx, conn, state, xmpp.NewNegotiator(cfg))
+		return s, "example.net", err
+	case "ws/init":
+		conn.FeedString(wsOpen("example.net", "me@example.net", "sid1") + `<stream:features xmlns:stream="` + streamNS + `"/>`)
+		if in.Via == "pkg" {
+			s, err := websocket.NewSession(ctx, j("me@example.net"), conn, fs...)
+			return s, "me@example.net", err
+		}
+		s, err := xmpp.NewSession(ctx, j("example.net"), j("me@example.net"), conn, state, websocket.Negotiator(cfg))
+		return s, "me@example.net", err
+	case "ws/recv":
+		conn.FeedString(wsOpen("", "example.net", "") + rest)
+		if in.Via == "pkg" {
+			s, err := websocket.ReceiveSession(ctx, conn, fs...)
+			return s, "example.net", err
+		}
+		s, err := xmpp.ReceiveSession(ctx, conn, state, websocket.Negotiator(cfg))
+		return s, "example.net", err
+	case "comp/init":
+		conn.FeedString(fmt.Sprintf(`<stream:stream xmlns="%s" xmlns:stream="%s" from="comp.example.net" id="sid1">`, ns, streamNS) + `<handshake/>`)
+		if in.Via == "pkg" {
+			s, err := component.NewSession(ctx, j("comp.example.net"), []byte("s3cr3t"), conn)
+			return s, "comp.example.net", err
+		}
+		s, err := xmpp.NewSession(ctx, j("comp.example.net"), j("comp.example.net"), conn, state, component.Negotiator(j("comp.example.net"), []byte("s3cr3t"), false))
+		return s, "comp.example.net", err
+	}
+	return nil, "", fmt.Errorf("driver: no constructor for %s/%s/%s", in.Kind, in.Role, in.Via)
+}
 
 func runVector(v vector) (obs vt.Ev, bad string) {
+	normSess(&v.In, &v.Exp)
 	conn := vt.NewConn()
-	ns := stanza.NSClient
-	st := xmpp.SessionState(0)
-	hdr := hdrIn
-	if v.In.S2S {
-		ns = stanza.NSServer
-		st = xmpp.S2S
-		hdr = strings.Replace(hdrIn, "jabber:client", "jabber:server", 1)
-	}
-	conn.FeedString(hdr)
-	var sess *xmpp.Session
-	var err error
-	if recvMode {
-		sess, err = xmpp.ReceiveSession(context.Background(), conn, st, nopNeg(ns))
-	} else {
-		sess, err = xmpp.NewSession(context.Background(), jid.MustParse("example.net"), jid.MustParse("me@example.net"), conn, st, nopNeg(ns))
-	}
+	ns := nsOf(v.Exp.NS)
+	sess, wantLocal, err := openVecSession(v.In, ns, conn)
 	if err != nil {
 		return nil, "session: " + err.Error()
 	}
@@ -210,8 +394,13 @@ func runVector(v vector) (obs vt.Ev, bad string) {
 	if callErr != nil {
 		return obs, "call failed: " + callErr.Error()
 	}
-	// parse in the context of a stream header declaring the stream's content namespace
-	d := xml.NewDecoder(strings.NewReader("<stream:stream xmlns='" + ns + "' xmlns:stream='http://etherx.jabber.org/streams'>" + wire))
+	// parse in the context the specification names: behind a stream header declaring the stream's content namespace,
+	// or - every element a document of its own - with no default namespace around it
+	wrap := "<stream:stream xmlns='" + ns + "' xmlns:stream='" + streamNS + "'>"
+	if v.Exp.Context == "standalone" {
+		wrap = "<stream:stream xmlns:stream='" + streamNS + "'>"
+	}
+	d := xml.NewDecoder(strings.NewReader(wrap + wire))
 	depth := 0
 	type top struct {
 		start    xml.StartElement
@@ -287,7 +476,8 @@ func runVector(v vector) (obs vt.Ev, bad string) {
 	}
 	obs["space"] = sp
 	if !has(v.Exp.Space, sp) {
-		return obs, fmt.Sprintf("namespace %q not in %v", sp, v.Exp.Space)
+		return obs, fmt.Sprintf("namespace %q not in %v (\"stream\" = %s, the content namespace of a %s stream; element read %s)", sp, v.Exp.Space, ns, v.In.Kind,
+			map[string]string{"header": "behind a stream header declaring it", "standalone": "as a document of its own"}[v.Exp.Context])
 	}
 	idv, idok := attr(t.start, "id")
 	idc := "absent"
@@ -313,7 +503,7 @@ func runVector(v vector) (obs vt.Ev, bad string) {
 		fc = "same"
 	case fok && fv == "":
 		fc = "empty"
-	case fok && fv == "me@example.net":
+	case fok && fv == wantLocal:
 		fc = "local"
 	case fok:
 		fc = "other:" + fv
@@ -364,7 +554,7 @@ func runVector(v vector) (obs vt.Ev, bad string) {
 	}
 	wire2 := conn.WireString()[hdrLen:]
 	obs["wire_next"] = wire2
-	d2 := xml.NewDecoder(strings.NewReader("<stream:stream xmlns='" + ns + "' xmlns:stream='http://etherx.jabber.org/streams'>" + wire2))
+	d2 := xml.NewDecoder(strings.NewReader(wrap + wire2))
 	depth, ntop, probeDepth, probeDone := 0, 0, 0, false
 	for {
 		tok, err := d2.Token()
@@ -417,38 +607,61 @@ func vectorsMain(args []string) {
 	defer f.Close()
 	rd := bufio.NewScanner(f)
 	rd.Buffer(make([]byte, 1<<20), 1<<24)
-	n := 0
-	var mism []interface{}
-	var samples []interface{}
-	classes := map[string]bool{}
+	var vecs []vector
 	for rd.Scan() {
 		var v vector
 		if err := json.Unmarshal(rd.Bytes(), &v); err != nil {
 			panic(err)
 		}
-		for _, recv := range []bool{false, true} {
-			if recv && !v.In.S2S {
-				continue
-			}
-			recvMode = recv
-			n++
-			obs, bad := runVector(v)
-			if bad != "" {
-				// determinism: run once more before reporting
-				_, bad2 := runVector(v)
-				if bad2 != "" {
-					if recv {
-						bad += " [session made by ReceiveSession]"
-					}
-					mism = append(mism, vt.Ev{"vector": v, "observed": obs, "what": bad})
-				}
-			}
-			if len(samples) < 2 {
-				samples = append(samples, vt.Ev{"vector": v, "observed": obs})
-			}
-		}
-		recvMode = false
-		classes[fmt.Sprintf("%s/%s/%s/%s/%v/%v", v.In.Name, v.In.Space, v.In.ID, v.In.From, v.In.S2S, v.In.Form)] = true
+		normSess(&v.In, &v.Exp)
+		vecs = append(vecs, v)
 	}
-	vt.Summary{Evaluations: n, Distinct: len(classes), Mismatches: mism, Samples: samples}.Print()
+	// every vector runs on a session of its own: independent of one another, spread over the processors; results
+	// are collected by index (the report does not depend on the order of execution)
+	type outcome struct {
+		obs vt.Ev
+		bad string
+	}
+	res := make([]outcome, len(vecs))
+	var wg sync.WaitGroup
+	next := make(chan int, 256)
+	nw := runtime.GOMAXPROCS(0)
+	for w := 0; w < nw; w++ {
+		wg.Add(1)
+		go func() {
+			defer wg.Done()
+			for i := range next {
+				obs, bad := runVector(vecs[i])
+				if bad != "" {
+					// determinism: run once more before reporting
+					if _, bad2 := runVector(vecs[i]); bad2 == "" {
+						bad = ""
+					}
+				}
+				res[i] = outcome{obs, bad}
+			}
+		}()
+	}
+	for i := range vecs {
+		next <- i
+	}
+	close(next)
+	wg.Wait()
+	var mism []interface{}
+	var samples []interface{}
+	classes := map[string]bool{}
+	sessions := map[string]int{}
+	for i, v := range vecs {
+		if res[i].bad != "" {
+			mism = append(mism, vt.Ev{"vector": v, "observed": res[i].obs,
+				"what": res[i].bad + fmt.Sprintf(" [session: %s, %s, made by %s]", v.In.Kind, map[string]string{"init": "initiated", "recv": "received"}[v.In.Role], v.In.Via)})
+		}
+		if len(samples) < 2 {
+			samples = append(samples, vt.Ev{"vector": v, "observed": res[i].obs})
+		}
+		classes[fmt.Sprintf("%s/%s/%s/%s/%s/%s/%s/%v", v.In.Name, v.In.Space, v.In.ID, v.In.From, v.In.Kind, v.In.Role, v.In.Via, v.In.Form)] = true
+		sessions[v.In.Kind+"/"+v.In.Role+"/"+v.In.Via]++
+	}
+	vt.Summary{Evaluations: len(vecs), Distinct: len(classes), Mismatches: mism, Samples: samples,
+		Extra: map[string]interface{}{"sessions": sessions}}.Print()
 }
